@@ -97,7 +97,8 @@ func (f *deferExpandIntoInternalVisitor) EnterInlineFragment(ref int) {
 	// get label argument if any
 	labelValue, hasLabel := f.operation.DirectiveArgumentValueByName(directiveRef, literal.LABEL)
 	label := ""
-	if hasLabel {
+	// label is a nullable String: `label: null` (or anything that is not a string literal) is no label
+	if hasLabel && labelValue.Kind == ast.ValueKindString {
 		label = f.operation.StringValueContentString(labelValue.Ref)
 	}
 
